@@ -123,6 +123,22 @@ def run_case(case):
                        expected=float(XV[i]), observed=float(V[i])))
     if not open_cells and not np.all(V > 0):
         vs.append(viol(pre + "|volumes_positive", "volumes must be positive", case))
+    # order witness for the position volumes (the factor getters are otherwise taken as given): cells of one direction in
+    # different shells are slabs of ONE cone, so their volumes are in the ratio of the R^3 differences of the shell
+    # boundaries -- in both position modes -- whatever the direction; a permuted volume list breaks this
+    radii = np.unique(np.round(np.linalg.norm(pos, axis=1), 9))
+    n_t = len(radii)
+    if n_t >= 2 and n_p % n_t == 0 and np.all(pV > 0):
+        n_o = n_p // n_t
+        Rb = np.concatenate([[0.0], (radii[:-1] + radii[1:]) / 2, [radii[-1] + (radii[-1] - radii[-2]) / 2]])
+        w = np.diff(Rb ** 3)
+        P = pV.reshape(n_t, n_o)
+        ratio = P / P[0][None, :] / (w / w[0])[:, None]
+        if np.abs(ratio - 1).max() > 1e-6:
+            k_, o_ = np.unravel_index(int(np.argmax(np.abs(ratio - 1))), ratio.shape)
+            vs.append(viol(pre + "|volume_order", f"position volumes are not listed in cell order: shell {int(k_)} / shell 0 of "
+                           f"direction {int(o_)} is not the ratio of the shell-boundary cubes", case,
+                           expected=float(w[k_] / w[0]), observed=float(P[k_, o_] / P[0, o_])))
     # cell order = rows of the grid array
     Xarr = np.concatenate([np.repeat(pos, n_b, axis=0), np.tile(quat, (n_p, 1))], axis=1)
     if not np.array_equal(arr, Xarr):
